@@ -224,12 +224,21 @@ func (w *Worker) ufInjective(name string, t *Term) {
 		if same.IsTrue() {
 			continue
 		}
-		pw := 64
-		if t.W < pw {
-			pw = t.W
+		// the premise is stated byte-wise (the atoms byte comparisons produce);
+		// the wide form is already rewritten by TermCtx.injectiveEq
+		var pre []*Term
+		nb := 8
+		if t.W/8 < nb {
+			nb = t.W / 8
 		}
-		pre := tc.Eq(tc.Extract(t, t.W-1, t.W-pw), tc.Extract(o, o.W-1, o.W-pw))
-		w.assertSilently(tc.Implies(pre, same))
+		for i := 0; i < nb; i++ {
+			hi := t.W - 1 - 8*i
+			pre = append(pre, tc.Eq(tc.Extract(t, hi, hi-7), tc.Extract(o, hi, hi-7)))
+		}
+		if t.W < 64 && t.W%8 != 0 {
+			pre = append(pre, tc.Eq(tc.Extract(t, t.W%8-1, 0), tc.Extract(o, t.W%8-1, 0)))
+		}
+		w.assertSilently(tc.Implies(tc.And(pre...), same))
 	}
 	w.ufApps[name] = append(w.ufApps[name], t)
 	w.h.mu.Lock()
